@@ -415,6 +415,18 @@ def expand(path, seen=None, defs=None):
         if st.startswith('//@@ define '):
             defs.add(st.split()[2])
             continue
+        if st.startswith('//@@ repoconst '):
+            # `//@@ repoconst NAME TYPE <file> <regex with one group>`: a limit the property does not fix (line and buffer
+            # sizes) is read from the repo text, so that the specification follows the code's own constant
+            _, _, cname, ctype, crel, cre = st.split(None, 5)
+            try:
+                m = re.search(cre, open(os.path.join(REPO, crel)).read())
+            except OSError:
+                m = None
+            if not m:
+                raise GenError('lost anchor: constant %s not found in %s' % (cname, crel))
+            out.append('pub const %s: %s = %s;   // value read from %s' % (cname, ctype, m.group(1).strip(), crel))
+            continue
         if st.startswith('//@@ include ') or st.startswith('//@@ include_stub '):
             name = st.split()[2]
             if name in seen:
